@@ -65,6 +65,7 @@ package fatigue
 //@   ensures [report_is_state] result.Props.(FatigueResult).ConsideredAlternatives == consideredAlts && result.Props.(FatigueResult).NotConsideredAlternatives == notConsideredAlts
 
 //@ func (*Fatigue).Apply
+//@   refines model.Bias.Apply
 //@   property C17 C09 C07
 //@   requires forall i int, j int :: 0 <= i && i < j && j < len(current.Criteria) ==> current.Criteria[i].Id != current.Criteria[j].Id
 //@   ensures [untouched] result.DMP.Criteria == current.Criteria && result.DMP.MethodParameters == current.MethodParameters
